@@ -38,6 +38,10 @@ def load_known():
     return known
 
 
+# development aid only (tools/try_patch_wt.sh): registered commands always analyse /repo
+REPO = os.environ.get('MPGVERIF_REPO', '/repo')
+
+
 def run_job(job, tmpdir):
     """job: dict(kind, module, cond, mode, timeout)"""
     out = os.path.join(tmpdir, f"{job['cond']}.{job['mode']}.json")
@@ -47,7 +51,7 @@ def run_job(job, tmpdir):
         cmd = [PY, '-m', 'mpgverif.worker', job['module'], job['cond'], job['mode'],
                str(job['timeout']), out]
     env = dict(os.environ)
-    env['PYTHONPATH'] = ROOT + os.pathsep + '/repo'
+    env['PYTHONPATH'] = ROOT + os.pathsep + REPO
     env['PYTHONHASHSEED'] = env.get('VERIF_SEED', '0') if env.get('VERIF_SEED', '').isdigit() \
         and int(env['VERIF_SEED']) < 4294967295 else '0'
     env['MOPEPGEN_VERIF'] = '1'
@@ -75,7 +79,7 @@ def replay(module, cond, args, tmpdir):
     path = os.path.join(tmpdir, f'replay_{cond}_{time.time_ns()}.json')
     json.dump(wit, open(path, 'w'))
     env = dict(os.environ)
-    env['PYTHONPATH'] = ROOT + os.pathsep + '/repo'
+    env['PYTHONPATH'] = ROOT + os.pathsep + REPO
     env['MOPEPGEN_VERIF'] = '1'
     p = subprocess.run([PY, '-m', 'mpgverif.replay', path, '--json'], cwd=ROOT, env=env,
                        stdout=subprocess.PIPE, stderr=subprocess.PIPE, text=True,
@@ -106,7 +110,7 @@ def main(argv=None):
     seed = int(os.environ.get('VERIF_SEED', '0') or 0)
     t_start = time.time()
 
-    sys.path.insert(0, '/repo')
+    sys.path.insert(0, REPO)
     from mpgverif.harness import PROPS
     from mpgverif.cond import REGISTRY
     from mpgverif import z3cond
